@@ -78,11 +78,15 @@ def run_job(spec):
         sc = make_scenario(spec)
         root = os.path.join(common.scratch(), "store")
         observer = None
-        if spec.get("observer"):
+        if spec.get("observer") == "removal":
+            from .i9 import make_removal_observer
+            observer = make_removal_observer(sc)
+        elif spec.get("observer"):
             from .i9 import make_observer
             observer = make_observer(sc)
         r = engine_t.explore(sc, root, bound=spec.get("bound"), observer=observer,
-                             max_exec=spec.get("max_exec"), time_cap=spec.get("time_cap"))
+                             max_exec=spec.get("max_exec"), time_cap=spec.get("time_cap"),
+                             reduce=spec.get("reduce", True))
         cache = {}
         verdicts = []
         for term, sched in r["terminals"].items():
